@@ -37,6 +37,12 @@ def plan(tier, seed):
     for li in range(nl):
         for ng in ngs:
             shards.append(("index", li, ng, tier))
+    # low-symmetry lattices with a very low minimum in both cosine modes, for four more sets of orientations (whether an
+    # alternative hkl assignment of a ring pair indexes a tenth of a grain depends on the orientations)
+    for li in (6, 7) + ((8,) if tier == "thorough" else ()):
+        for ng in (2, 3):
+            for extra in (1, 2, 3, 4):
+                shards.append(("index_low", li, ng, tier, extra))
     k = seed % len(shards)
     return shards[k:] + shards[:k]
 
@@ -59,7 +65,12 @@ def npk_within(ubi, gv, tol):
 
 
 def run_shard(desc):
-    _, li, ng, tier = desc
+    only_low, extra_shift = False, 0
+    if desc[0] == "index_low":
+        _, li, ng, tier, extra_shift = desc
+        only_low = True
+    else:
+        _, li, ng, tier = desc
     from ImageD11 import indexing, unitcell as ucm
     indexing.loglevel = 4
     sh = Shard()
@@ -67,7 +78,7 @@ def run_shard(desc):
     hk, B = O.brute_hkls(cell, sym, dsmax)
     hkls = np.array(sorted(hk), float)
     nref = len(hkls)
-    shift = seed_of() % len(ROT_TABLE)
+    shift = (seed_of() + extra_shift) % len(ROT_TABLE)
     rots = [O.rotation_from_axis_angle(*ROT_TABLE[(k + shift) % len(ROT_TABLE)]) for k in range(ng)]
     ubis_true = [np.linalg.inv(np.dot(R, B)) for R in rots]
     gv_grain = [np.dot(np.dot(R, B), hkls.T).T for R in rots]
@@ -82,6 +93,9 @@ def run_shard(desc):
     # a low minimum (30 % of a grain's reflections: orientations that index a third of a grain's peaks must be recognised as
     # alternatives of a real grain, not reported) in both cosine_tol modes, and a partial grain holding EXACTLY minpks peaks
     combos += [(0.01, ct, 0.3, 0.005, "ideal") for ct in (0.002, -0.002)] + [(0.01, 0.002, -1.0, 0.005, "partial")]
+    combos += [(0.02, ct, 0.08, 0.005, "ideal") for ct in (0.002, -0.002)]
+    if only_low:
+        combos = [(0.02, ct, mf, 0.005, "ideal") for ct in (0.002, -0.002) for mf in (0.08, 0.2, 0.3)]
     for hkl_tol, ctol, mfrac, ds_tol, kind in combos:
         if ctol < 0 and ng > 3:
             continue        # all-candidates mode is quadratic; kept to the small grain sets
@@ -107,7 +121,7 @@ def run_shard(desc):
         order = (np.arange(len(allgv)) * 7919) % len(allgv) if np.gcd(7919, len(allgv)) == 1 else np.arange(len(allgv))[::-1]
         allgv = np.ascontiguousarray(allgv[order])
         case = {"lattice": li, "cell": cell, "sym": sym, "ngrains": ng, "hkl_tol": hkl_tol, "cosine_tol": ctol, "minpks": minpks,
-                "ds_tol": ds_tol, "data": kind, "seed": seed_of()}
+                "ds_tol": ds_tol, "data": kind, "seed": seed_of(), "orientation_set": extra_shift}
         uc = ucm.unitcell(cell, sym)
         ind = indexing.indexer(unitcell=uc, gv=allgv.copy(), cosine_tol=ctol, minpks=minpks, hkl_tol=hkl_tol, ds_tol=ds_tol, wavelength=0.3,
                                uniqueness=0.5, max_grains=100)
@@ -155,6 +169,9 @@ def run_shard(desc):
         if ng >= 2 or kind != "ideal":
             sh.nontrivial += 1
         sh.outcomes.add((kind, len(found) - n_expected))
+    if only_low:
+        sh.sample(dict(case, reflections_per_grain=nref, found=len(found)), limit=1)
+        return sh
     # ---- further ways of driving the search, ideal data, one hkl_tol: (a) only one ring available (data restricted to it, or
     # rings_to_use=[r]): the ring must be paired with itself; (b) the search repeated on the same indexer object (as indexing.index()
     # does with its list of (minpks, hkl_tol) settings): grains found in the first pass must not be reported again
@@ -274,6 +291,9 @@ def run_shard(desc):
 
 def replay(case):
     os.environ["VERIF_SEED"] = str(case.get("seed", 0))
-    r = run_shard(("index", case["lattice"], case["ngrains"], "thorough"))
+    if case.get("orientation_set"):
+        r = run_shard(("index_low", case["lattice"], case["ngrains"], "thorough", case["orientation_set"]))
+    else:
+        r = run_shard(("index", case["lattice"], case["ngrains"], "thorough"))
     v = [x for x in r.violations if all(x["case"].get(k) == case.get(k) for k in ("hkl_tol", "cosine_tol", "minpks", "ds_tol", "data"))]
     return (not v), {"violations": v[:3]}
